@@ -106,6 +106,32 @@ def foreign_namesake_docs():
     return out
 
 
+def integration_afe_docs():
+    """Inside an integration point: a block and a formatting element opened, mis-nested so that the formatting element is left in
+    the list of active formatting elements, then ONE token - what decides between the current insertion mode (reconstruct the
+    formatting elements) and the foreign-content rules.  6 x 7 x 14 documents, each also with the foreign root closed afterwards."""
+    out = []
+    for ip in ("<svg><foreignObject>", "<svg><desc>", "<svg><title>", "<math><annotation-xml encoding=text/html>", "<math><mi>", "<math><mtext>"):
+        for inner in ("<p><b></p>", "<b><p></b>", "<div><i><a href=u></div>", "<p><b><i></p>", "<a><table></a>", "<b></b><p><nobr></p>", "<p><font color=red></p>"):
+            for nxt in (" x", "\n", "\tx", "x", "&#32;x", "\x0c", "\r\ny", "<i>", "</svg>", "</math>", "\x00", "<!--c-->", "  </p>z", "<br>"):
+                out.append(ip + inner + nxt)
+                out.append(ip + inner + nxt + "</svg></math>w")
+    return out
+
+
+def newline_docs():
+    """Newlines in and around the elements whose first newline is dropped (pre, listing, textarea) and their look-alikes: the newline as
+    first character, after a character reference, after a stray '<', after NUL, as CR / CRLF / reference."""
+    out = []
+    for el in ("textarea", "pre", "listing", "title", "div", "svg"):
+        for lead in ("", "\n", "a", "&amp;", "<", "\x00", "a&#50;", "<b>", " "):
+            for mid in ("\n", "\r\n", "&#10;", "\r", "\n\n"):
+                for tail in ("b", "", "\nb</%s>\nc" % el):
+                    out.append("<%s>%s%s%s" % (el, lead, mid, tail))
+                    out.append("<%s>%s%s%s</%s><%s>x%sy" % (el, lead, mid, tail, el, el, mid))
+    return out
+
+
 def long_docs():
     """A few LONG documents (thousands of tokens when walked): block-wise buffering, caches that fill up and counters are only
     exercised by inputs of this size; nothing any property states depends on how much came before."""
